@@ -33,7 +33,9 @@ SCOPE = {
              "expressions as reaches of steps (languages of 1 step, of 2 steps with closures, of 8 steps without; one "
              "step with two reaches expressions) and 40 inheritance shapes (absent / '->' / '+>' / no-reaches per "
              "level); 2 expressions whose subtype filter is only well-typed under least-common-ancestor typing of "
-             "set operators",
+             "set operators; the one-expression cases run on the models with <=1 linked pair or one 2-cycle, the "
+             "batches on seeded fractions of the (model x batch) product (S1 80%, S3 20%, S2 3.5%, S4 100%, random "
+             "models 12%; batches with closures a further 2-20%)",
     "thorough": "same structures; + 2500 random expressions of height <=4 per structure; models: all on <=2 assets, "
                 "3000 random on 3 assets and 1500 on 4 assets per structure; seeded fractions of the (model x "
                 "expression batch) product (S3 40%, S2 10%, S1/S4 100%, random models 4%, transitive batches x0.3)",
@@ -170,9 +172,9 @@ def graph_lang(sname, L, batch):
 
 
 # fraction of the (model x expression batch) product that is run per structure in the quick tier
-QUICK_FRACTION = {"S3": 0.25, "S1": 1.0, "S2": 0.04, "S4": 1.0}
+QUICK_FRACTION = {"S3": 0.2, "S1": 0.8, "S2": 0.035, "S4": 1.0}
 SINGLES_FRACTION = {"S3": 1.0, "S1": 1.0, "S2": 0.15, "S4": 1.0}
-T_FRACTION = {"S3": 0.03, "S1": 0.15, "S2": 0.06, "S4": 0.3}      # further factor for the transitive batches
+T_FRACTION = {"S3": 0.02, "S1": 0.1, "S2": 0.04, "S4": 0.2}      # further factor for the transitive batches
 THOROUGH_FRACTION = {"S3": 0.4, "S1": 1.0, "S2": 0.10, "S4": 1.0}
 T_FRACTION_THOROUGH = 0.3
 
@@ -216,7 +218,7 @@ def _cases_of(sname, tier, seed):
         mrec = G.model_recipe(types, links)
         for (T, e) in small:
             if not fits(T, types) or (p1 < 1.0 and rnd.random() >= p1): continue
-            if quick and G.trans_fields(L, e) and rnd.random() < 0.5: continue
+            if quick and G.trans_fields(L, e) and rnd.random() < 0.65: continue
             yield {"k": "eval", "lang": eval_lang, "src": T, "exprs": [full(e)], "model": mrec}
             yield {"k": "graph", "lang": graph_lang(sname, L, [(T, e)]), "model": mrec}
     for (T, e) in TYPING.get(sname, []):
@@ -224,9 +226,8 @@ def _cases_of(sname, tier, seed):
         for (types, links, mode) in m12:
             if mode != "pairs" or not fits(T, types) or (quick and rnd.random() >= 0.3): continue
             mrec = G.model_recipe(types, links)
-            note = "lca-typing:" + G.OPNAME[e[2][0]]
-            yield {"k": "eval", "lang": eval_lang, "src": T, "exprs": [full(e)], "model": mrec, "note": note}
-            yield {"k": "graph", "lang": graph_lang(sname, L, [(T, e)]), "model": mrec, "note": note}
+            yield {"k": "eval", "lang": eval_lang, "src": T, "exprs": [full(e)], "model": mrec}
+            yield {"k": "graph", "lang": graph_lang(sname, L, [(T, e)]), "model": mrec}
     # (2) inheritance shapes
     if sname in FOLD_EXPRS:
         fl = list(fold_languages(sname))
@@ -290,9 +291,13 @@ def run_case(recipe):
     r = CaseResult()
     seen = set()
     if real.build_error is not None:
-        r.check("C01.no-crash", False, real._stage, "building the language / a valid model raised %r" % (real.build_error,),
+        sens = L.lhs_typing_sensitive() if real._stage.endswith("LanguageGraph.__init__") else []
+        r.check("C01.no-crash", False, real._stage, "building the language / a valid model raised %r%s" % (
+            real.build_error, "; a reaches expression is only well-typed if the type of %s is the least common "
+            "ancestor of the operands" % "/".join(sens) if sens else ""),
                 "build:%s:%s%s" % (real._stage.split(".")[-1], type(real.build_error).__name__,
-                                   ":" + recipe["note"] if recipe.get("note") else ""))
+                                   ":lca-typing:" + "+".join(sens) if sens else ""))
+        r.nontrivial_key = common.recipe_hash(recipe)
         return r
     r.check("C01.no-crash", True, FN_EVAL)
     if recipe["k"] == "eval":
